@@ -170,6 +170,11 @@ def r7(R, repo):
            and any(c.edge_guarded(r_, n, 'T') or c.edge_guarded(r_, n, 'F') for r_ in c.nodes if isinstance(r_.stmt, ast.Raise))]
   rets = [n for n in c.nodes if isinstance(n.stmt, ast.Return)]
   key = key_of(f, 'scalar-output check between the lifted call and every return')
+  weak = [y for n in tests for y in ast.walk(n.ast) if isinstance(y, ast.Compare) and any(isinstance(z, ast.Attribute) and z.attr == 'size' for z in ast.walk(y))
+          and not any(isinstance(z, ast.Attribute) and z.attr in ('shape', 'ndim') for z in ast.walk(n.ast))]
+  if weak:
+    R.fail(key, (f, weak[0]), '`%s` accepts every one-element array, e.g. a loss of shape (1,) or (1, 1): jax.grad of the pure apply function raises for those, so nn.grad / nn.value_and_grad no longer agree with it; the check must be on the shape (`out.shape != ()`)' % astu.short(weak[0]))
+    return
   if not runs or not rets:
     R.unsure(key, f, 'grad_partial() call / returns not recognised')
     return
